@@ -63,15 +63,38 @@ TrickSet == {Hijack, HijackBad, JunkFirst, ReFin, AfterFin, Equivoc, EquivocGood
 FloodSet == {Flood, FarSeq, DeadFlood, PastFlood, FutFlood}
 
 MCStreams == {1, 2}
-(* stream 1 honest, stream 2 anything *)
-ChA == [s \in MCStreams |-> IF s = 1 THEN {H1a, H2a} ELSE GrammarSet]
-ChB == [s \in MCStreams |-> IF s = 1 THEN {H1a, H2a} ELSE TrickSet]
-ChC == [s \in MCStreams |-> IF s = 1 THEN {H1a, H2a} ELSE FloodSet]
-ChD == [s \in MCStreams |-> IF s = 1 THEN {H1b, E1} ELSE {H1e, H2b, E2}]
-(* small ones for the quick tier and the liveness runs *)
-ChQ1 == [s \in MCStreams |-> IF s = 1 THEN {H1e, H2b} ELSE {NoInit, BadCommit, BadFin, EarlyFin, EmptyBad, JunkMid}]
-ChQ2 == [s \in MCStreams |-> IF s = 1 THEN {H1e, H2b} ELSE {Hijack, JunkFirst, ReFin, Equivoc, Flood, DeadFlood, PastFlood}]
-ChL  == [s \in MCStreams |-> IF s = 1 THEN {H1e, H2b, E1} ELSE {NoInit, Hijack, ReFin, Flood, DeadFlood, PastFlood, FutFlood, BadFin}]
+Two(A, B) == [s \in MCStreams |-> IF s = 1 THEN A ELSE B]
+(* an honest stream (height 1 or 2) beside ... *)
+ChGram1 == Two({H1e, H2b}, {NoInit, TwoInits, BadCommit, BadFin, EarlyFin})
+ChGram2 == Two({H1e, H2b}, {InfoAfterTx, BadCommitI, BadFinH, Gap, FinFirst})
+ChGram3 == Two({H1e, H2b}, {JunkMid, BadExec, EmptyBad, EmptyThenTx})
+ChTrick1 == Two({H1e, H2b}, {Hijack, HijackBad, JunkFirst})
+ChTrick2 == Two({H1e, H2b}, {ReFin, AfterFin, Equivoc, EquivocGood})
+ChFlood  == Two({H1e, H2b}, FloodSet)
+ChHon    == Two({H1b, E1}, {H1e, H2b, E2})
+(* quick tier *)
+ChQ1 == Two({H2b}, {NoInit, BadFin, EarlyFin, EmptyBad})
+ChQ2 == Two({H1e}, {Hijack, ReFin, Flood, DeadFlood, PastFlood})
+(* liveness *)
+ChL1 == Two({H1e, H2b}, {NoInit, Hijack, ReFin, BadFin})
+ChL2 == Two({H1e, H2b}, {Flood, DeadFlood, PastFlood, FutFlood})
 ChOne == [s \in {1} |-> HonestSet \cup GrammarSet \cup TrickSet \cup FloodSet]
+ChOneQ == [s \in {1} |-> {H1a, H2b, E1, NoInit, BadCommit, BadFin, Gap, ReFin, Hijack, Equivoc, Flood, FarSeq, PastFlood}]
+(* expected violations *)
+ChXNil   == Two({H1e}, {Hijack})
+ChXBlock == Two({H1e}, {Flood})
+ChXFut   == Two({H2b}, {FutFlood})
+ChXReFin == Two({H1e}, {ReFin})
+ChXBuf   == Two({H1e}, {FarSeq})
+ChXPast  == Two({H1e}, {PastFlood})
+ChXCommit == Two({H1e}, {BadCommit})
+ChXFin   == Two({H1e}, {BadFin})
+ChXHon   == Two({H1e}, {H2b})
 MCBad == {3}
+(* behaviour generation: three streams with pairwise different ids (honest ids are (height, round)) *)
+MCStreams3 == {1, 2, 3}
+ChSim == [s \in MCStreams3 |->
+            IF s = 1 THEN {H1a, H1e, H2a, H3a}
+            ELSE IF s = 2 THEN {H1b, H2b, E1, E2, H1b, H2b}
+            ELSE GrammarSet \cup TrickSet \cup FloodSet]
 =============================================================================
